@@ -23,10 +23,12 @@ import (
 	"context"
 	"time"
 
+	"entgo.io/ent/dialect/sql"
 	"github.com/google/uuid"
 
 	"go.6river.tech/mmmbbb/ent"
 	"go.6river.tech/mmmbbb/ent/snapshot"
+	"go.6river.tech/mmmbbb/ent/subscription"
 	"go.6river.tech/mmmbbb/ent/topic"
 	"go.6river.tech/mmmbbb/logging"
 )
@@ -57,6 +59,19 @@ func (a *PruneDeletedTopics) Execute(ctx context.Context, tx *ent.Tx) error {
 			// we rely on subscriptions being pruned to then allow topics to be pruned
 			// UPSTREAM: ticket for HasRelationWith efficiency
 			topic.Not(topic.HasSubscriptions()),
+			// a topic that some subscription still names as its dead-letter topic has
+			// to stay as well: removing the row would null that reference (ON DELETE
+			// SET NULL) and thereby silently switch the subscription's dead-letter
+			// policy off
+			func(s *sql.Selector) {
+				st := sql.Table(subscription.Table)
+				s.Where(sql.NotIn(
+					s.C(topic.FieldID),
+					sql.Select(st.C(subscription.FieldDeadLetterTopicID)).
+						From(st).
+						Where(sql.NotNull(st.C(subscription.FieldDeadLetterTopicID))),
+				))
+			},
 		).
 		Limit(a.params.MaxDelete).
 		All(ctx)
